@@ -321,4 +321,48 @@ def r17_5(ctx: Ctx) -> RuleResult:
     return rr
 
 
-RULES = [r17_1, r17_2, r17_3, r17_4, r17_5]
+def r17_6(ctx: Ctx) -> RuleResult:
+    """The spelling of an identifier or operator token is compared as a whole.  Wherever the package compares
+    something with `<env>.<name>_token`, the comparison is `==` / `!=`: a containment or prefix test
+    (`op in env.union_token`, `.startswith(env.root_token)`) gives a different answer as soon as one spelling is
+    part of another, which the default spellings never are."""
+    rr = RuleResult("R17.6", "token spellings are compared by equality", floor=4)
+    n = 0
+    for fn in ctx.repo.functions.values():
+        if fn.module.name.endswith(".lex"):
+            continue  # the lexer builds patterns from the spellings; it does not compare them
+        for node in ast.walk(fn.node):
+            if isinstance(node, ast.Compare) and len(node.ops) == 1:
+                sides = [node.left, node.comparators[0]]
+                toks = [x for x in sides if (path_of(x) or "").endswith("_token") and ".env." in "." + (path_of(x) or "") + "."
+                        or (path_of(x) or "").startswith("env.") and (path_of(x) or "").endswith("_token")]
+                if not toks:
+                    continue
+                n += 1
+                if isinstance(node.ops[0], (ast.Eq, ast.NotEq)):
+                    rr.ok(fn.loc(node), f"{fn.qualname}: `{short(node)}`")
+                else:
+                    rr.bad(fn, node, f"`{short(node)}` tests a token spelling by {type(node.ops[0]).__name__}: with `+` and `++` (or any spelling that "
+                           "contains another) the wrong operator or identifier is recognised", construct=f"{fn.name}: {short(node)}")
+            elif isinstance(node, ast.Call) and isinstance(node.func, ast.Attribute) and node.func.attr in ("startswith", "endswith", "find", "index", "count") and node.args:
+                a0 = path_of(node.args[0]) or ""
+                recv = path_of(node.func.value) or ""
+                if (a0.endswith("_token") and "env" in a0.split(".")) or (recv.endswith("_token") and "env" in recv.split(".")):
+                    n += 1
+                    rr.bad(fn, node, f"`{short(node)}` tests a token spelling by `{node.func.attr}`: a spelling that is part of another is "
+                           "recognised in its place", construct=f"{fn.name}: {short(node)}")
+    if n == 0:
+        raise AnalysisError("R17.6: no comparison with an environment token found")
+    return rr
+
+
+def r17_7(ctx: Ctx) -> RuleResult:
+    """The string forms of embedded queries under *renamed* identifiers of different lengths (`$$`, `^^^`, `%`, `_ctx`):
+    each prints with its own spelling in front of the segments - whatever is cut off the inner query's text is the
+    length of the root spelling that is there (= R10.12 with other spellings)."""
+    from .c10 import r10_12
+
+    return r10_12(ctx, "R17.7", {"root_token": "$$", "fake_root_token": "^^^", "self_token": "%", "filter_context_token": "_ctx"})
+
+
+RULES = [r17_1, r17_2, r17_3, r17_4, r17_5, r17_6, r17_7]
